@@ -714,12 +714,27 @@ def run_check(prop_id, tier="quick", seed=0, replay=None):
         # the same calls with bytes arguments passed as another bytes-like type, for the ops a property lists in
         # BYTEARRAY_OPS / MEMORYVIEW_OPS (ops whose answer does not depend on the concrete bytes-like type on the pinned
         # tree - tools/bytearray_probe.py; for bytearray the caller's buffer must also stay intact)
+        def mixed_candidates(pick):
+            """candidates from ALL cheap cases (not only the re-run sample), accepted and refused inputs alternating: a
+            deviation usually shows on accepted inputs, a stale answer when an accepted input is followed by another"""
+            cand = [x for x in cheap if pick(x[0])]
+            rs.shuffle(cand)
+            acc = [x for x in cand if x[1][0] == "ok" and x[1][1] not in (False, None)]
+            rej = [x for x in cand if not (x[1][0] == "ok" and x[1][1] not in (False, None))]
+            mixed = []
+            while (acc or rej) and len(mixed) < (600 if tier == "thorough" else 300):
+                if acc:
+                    mixed.append(acc.pop())
+                if rej:
+                    mixed.append(rej.pop())
+            return mixed
+
         for kind, attr in (("bytearray", "BYTEARRAY_OPS"), ("memoryview", "MEMORYVIEW_OPS")):
             v_ops = set(getattr(prop, attr, ()))
             nv = 0
             if not v_ops:
                 continue
-            for (c, ir0) in [x for x in sample if x[0]["op"] in v_ops and any(isinstance(a, bytes) for a in x[0]["args"])][:120]:
+            for (c, ir0) in mixed_candidates(lambda c: c["op"] in v_ops and any(isinstance(a, bytes) for a in c["args"])):
                 ir1 = impl.call(c["op"] + "@" + kind, c["args"], timeout=c.get("timeout"))
                 if canon and ir1[0] == "ok":
                     ir1 = ("ok", canon(c, ir1[1]))
@@ -739,18 +754,7 @@ def run_check(prop_id, tier="quick", seed=0, replay=None):
                             and any(isinstance(a, list) for a in c["args"]))):
             nv = 0
             prev = {}          # op -> the previous case run with this op (the content the reused objects held before)
-            # candidates from ALL cheap cases (not only the re-run sample), accepted and refused inputs alternating: a
-            # stale answer only shows when an accepted input is followed by a different one on the same object
-            cand = [x for x in cheap if pick(x[0])]
-            rs.shuffle(cand)
-            acc = [x for x in cand if x[1][0] == "ok" and x[1][1] not in (False, None)]
-            rej = [x for x in cand if not (x[1][0] == "ok" and x[1][1] not in (False, None))]
-            mixed = []
-            while (acc or rej) and len(mixed) < (600 if tier == "thorough" else 300):
-                if acc:
-                    mixed.append(acc.pop())
-                if rej:
-                    mixed.append(rej.pop())
+            mixed = mixed_candidates(pick)
             for (c, ir0) in mixed:
                 ir1 = impl.call(c["op"] + "@" + kind, c["args"], timeout=c.get("timeout"))
                 if canon and ir1[0] == "ok":
